@@ -1240,6 +1240,7 @@ def trexp(S, theta=None, check=True):
         R = base.rodrigues(w, theta)
 
         skw = base.skew(w)
+        theta = float(theta)  # (a NumPy float16 / float32 scalar would keep theta - sin(theta) in its own precision)
         V = np.eye(3) * theta + (1.0 - math.cos(theta)) * skw + (theta - math.sin(theta)) * skw @ skw
 
         return base.rt2tr(R, V@t)
